@@ -752,9 +752,9 @@ namespace awkward {
       if (offsets.length() == 0) {
         return std::pair<Index64, ContentPtr>(
           offsets,
-          std::make_shared<UnmaskedArray>(Identities::none(),
-                                          util::Parameters(),
-                                          flattened));
+          UnmaskedArray(Identities::none(),
+                        util::Parameters(),
+                        flattened).simplify_optiontype());
       }
       else {
         return offsets_flattened;
